@@ -51,6 +51,12 @@ def run(op, a):
     if op == "nanmax":
         x = jnp.array(a["x"], dtype=jnp.float32)
         return [float(jnp.nanmax(x)), float(jnp.nanmin(x))]
+    if op == "arange3":
+        r = jnp.arange(a["lo"], a["hi"], a["step"])
+        return [int(r.shape[0])] + [int(v) for v in r]
+    if op == "stack":
+        r = jnp.stack([jnp.float32(v) for v in a["x"]], axis=0)
+        return [int(r.shape[0])] + [float(v) for v in r]
     if op == "tree_leaves":
         t = json.loads(a["tree"])
         return [int(v) for v in jax.tree_util.tree_leaves(t)]
